@@ -23,6 +23,9 @@ C10_OneConnInOrder == (J /\ Srv) => \A p \in {1, 2} : LET g == GoodIdx(p) IN
 C10_NonInterference == (J /\ Srv) => \A a, b \in 1..Len(Ev) :
                         (Ev[a].e = "good" /\ Ev[b].e = "good" /\ Ev[a].p # Ev[b].p /\ Ev[a].answered /\ Ev[b].answered) => Ev[a].conn # Ev[b].conn
 C10_NewConnOnce == (J /\ Srv) => \A p \in {1, 2} : (GoodIdx(p) # <<>>) => T.newconns[p + 1] = 1     \* (the recorded list is indexed from peer 0)
+\* "never ... stops accepting": a connection that is never dismantled keeps its socket and goroutines; every connection the server
+\* announced - also those of peers that sent garbage, reset or failed the handshake - is done once the peers are gone and the server stopped
+C10_AllDismantled == (J /\ Srv) => T.undone = 0
 \* discovery: "responses to a discovery request are delivered only to the receiver registered for their token, each
 \*  with the connection of the peer that sent it"
 Dsc == T.op = "discover"
